@@ -419,6 +419,69 @@ fn pid_core_body(_lookups: usize, _named_conflict: bool) -> vsched::Body {
     wrong_build()
 }
 
+#[cfg(not(feature = "alt"))]
+fn remote_namesake_body(_kill: bool) -> vsched::Body {
+    wrong_build()
+}
+
+/// Cluster build: a stand-in for a peer's actor (remote id, what a cluster session creates with
+/// `spawn_linked_remote`) carries the peer actor's name, which may well be the name of a local actor too
+/// (names are per node). Stand-ins are not entered in the name table, so their coming and going must leave the
+/// local holder of that name alone: where_is keeps returning it, a same-name spawn keeps failing.
+#[cfg(feature = "alt")]
+fn remote_namesake_body(kill: bool) -> vsched::Body {
+    Arc::new(move || {
+        Box::pin(async move {
+            let mut bad = Vec::new();
+            let (sup, suph) = Actor::spawn(None, Dummy, ()).await.expect("supervisor");
+            let (l, lh) = Actor::spawn(Some("N".into()), Dummy, ()).await.expect("local holder of the name");
+            let shim = ractor::ActorRuntime::<Dummy>::spawn_linked_remote(Some("N".into()), Dummy, ractor::ActorId::Remote { node_id: 5, pid: 9 }, (), sup.get_cell()).await;
+            let Ok((shim, shimh)) = shim else {
+                bad.push("the stand-in with a remote id could not be created next to a local actor of the same name".to_string());
+                l.stop(None);
+                let _ = lh.await;
+                sup.stop(None);
+                let _ = suph.await;
+                return Outcome { key: "no-shim".into(), violations: bad };
+            };
+            let holder = |when: &str, bad: &mut Vec<String>| {
+                let w = ractor::registry::where_is("N").map(|c| c.get_id());
+                if w != Some(l.get_id()) {
+                    bad.push(format!("{when}: where_is(\"N\") = {w:?}, expected the running local holder {}", l.get_id()));
+                }
+            };
+            holder("with the stand-in alive", &mut bad);
+            vsched::explore_schedules(true);
+            if kill {
+                shim.kill();
+            } else {
+                shim.stop(None);
+            }
+            let _ = shimh.await;
+            vsched::quiesce();
+            vsched::explore_schedules(false);
+            holder("after the stand-in stopped", &mut bad);
+            match Actor::spawn(Some("N".into()), Dummy, ()).await {
+                Err(ractor::SpawnErr::ActorAlreadyRegistered(_)) => {}
+                Ok((x, xh)) => {
+                    bad.push(format!("after the stand-in stopped a second actor ({}) could be spawned under the name the local holder {} still owns", x.get_id(), l.get_id()));
+                    x.stop(None);
+                    let _ = xh.await;
+                }
+                Err(e) => bad.push(format!("a same-name spawn failed with {e} instead of ActorAlreadyRegistered")),
+            }
+            l.stop(None);
+            let _ = lh.await;
+            if ractor::registry::where_is("N").is_some() {
+                bad.push("the name is still registered after its holder's join handle completed".to_string());
+            }
+            sup.stop(None);
+            let _ = suph.await;
+            Outcome { key: format!("kill={kill}"), violations: bad }
+        })
+    })
+}
+
 /// A running holder H exits while a new cell X is created, `where_is_pid(H)` / `get_all_pids()` run, and
 /// (optionally) a creation fails on a name conflict after... before its pid is entered.
 #[cfg(feature = "alt")]
@@ -687,6 +750,8 @@ pub fn plan(tier: &str) -> Plan {
         ("alt/live/Kill".into(), live_cfg.clone(), Some(lb), live_body(Exit::Kill), 8),
         ("alt/live/FailedStart".into(), live_cfg.clone(), Some(lb), live_body(Exit::FailedStart), 8),
         ("alt/live/instant-failed-start/err/send".into(), live_cfg.clone(), Some(lb), failed_instant_body(false, false), 4),
+        ("alt/remote-namesake/stop".into(), ExecCfg::default(), Some(1), remote_namesake_body(false), 1),
+        ("alt/remote-namesake/kill".into(), ExecCfg::default(), Some(1), remote_namesake_body(true), 1),
     ];
     for (name, cfg, bound, b, split) in alt_units {
         units.push(alt_unit(name, cfg, bound, b, split));
